@@ -56,7 +56,18 @@ func v6Seqs(alpha []string, maxLen int, terminal func(string) bool) [][]string {
 	return out
 }
 
-func v6ShrexTerminal(a string) bool { return a == "honest" }
+func v6ShrexTerminal(a string) bool {
+	_, atEnd := v6AtEndOf(a)
+	return a == "honest" || atEnd
+}
+
+// v6Special: the answer families that are combined with a reduced set of other answers where the full
+// product is too large (transfers that die midway, answers that arrive as the caller gives up).
+func v6Special(a string) bool {
+	_, p := v6PartialOf(a)
+	_, e := v6AtEndOf(a)
+	return p || e
+}
 func v6BsTerminal(p string) bool {
 	k, rest, _ := v6ParseBsPeer(p)
 	return k == "honest" && rest == "honest"
@@ -133,7 +144,7 @@ var v6Core = map[string]bool{"honest": true, "othersq": true, "nf": true, "hang"
 func v6KeepPartialSeq(seq []string, others map[string]bool) bool {
 	hasPart := false
 	for _, a := range seq {
-		if _, p := v6PartialOf(a); p {
+		if v6Special(a) {
 			hasPart = true
 		}
 	}
@@ -141,7 +152,7 @@ func v6KeepPartialSeq(seq []string, others map[string]bool) bool {
 		return true
 	}
 	for _, a := range seq {
-		if _, p := v6PartialOf(a); !p && !others[a] {
+		if !v6Special(a) && !others[a] {
 			return false
 		}
 	}
@@ -152,8 +163,7 @@ func v6Filter(alpha []string, keep map[string]bool) []string {
 	var out []string
 	for _, a := range alpha {
 		k, _, _ := v6ParseBsPeer(a)
-		_, part := v6PartialOf(a)
-		if keep[a] || keep[k] || part {
+		if keep[a] || keep[k] || v6Special(a) {
 			out = append(out, a)
 		}
 	}
